@@ -100,6 +100,8 @@ type Input struct {
 	StaticDev bool         `json:"staticdev"`
 	NoVDB     bool         `json:"novdb"`
 	Extract   bool         `json:"extract"`
+	// further runs of the same command line whose -o path exists beforehand (r5_outfile.go)
+	Pre []PreSpec `json:"pre,omitempty"`
 }
 
 // ---------------------------------------------------------------- skeleton
@@ -817,6 +819,14 @@ func Run(in Input) (c *common.Case) {
 	}
 	desc["comp"] = compDesc
 
+	// the output path is not always fresh: the same run onto a path that holds something already
+	outItems := []string{}
+	var preDesc []preObs
+	if rc == 0 && len(in.Pre) > 0 {
+		outItems, preDesc = runPre(tmp, root, args, lines, plain, in.Pre)
+		desc["pre"] = preDesc
+	}
+
 	// members, in name order
 	mterms := make([]string, len(ms))
 	for k, i := range order {
@@ -844,7 +854,7 @@ func Run(in Input) (c *common.Case) {
 		}
 		desc["extract"] = map[string]interface{}{"members": extDesc, "tar_output": tarOut}
 	}
-	c.Coq = q.App("C07.MkCase", q.List(mterms), q.Z(t0), q.Z(t1), q.List(compItems), q.List(extItems), obsTerm)
+	c.Coq = q.App("C07.MkCase", q.List(mterms), q.Z(t0), q.Z(t1), q.List(compItems), q.List(extItems), q.List(outItems), obsTerm)
 
 	// evidence bookkeeping
 	classes := map[string]bool{}
@@ -867,6 +877,26 @@ func Run(in Input) (c *common.Case) {
 	}
 	if len(extItems) > 0 {
 		classes["extracted-by-gnu-tar"] = true
+	}
+	for _, po := range preDesc {
+		if po.Skipped != "" {
+			continue
+		}
+		cl := "output-path-existed:" + po.Method
+		switch {
+		case !po.Existed:
+			cl = "output-path-fresh-control"
+		case po.PriorLen > po.FreshLen:
+			cl += ":longer"
+		case po.PriorLen == po.FreshLen:
+			cl += ":equal"
+		default:
+			cl += ":shorter"
+		}
+		classes[cl] = true
+		if po.Kind == "bigger" || po.Kind == "other" {
+			classes["output-path-held-earlier-stage"] = true
+		}
 	}
 	sort.Strings(keyParts)
 	c.Key = strings.Join(keyParts, "|")
